@@ -67,14 +67,16 @@ Rels == <<
   Rel("asinh_axis", "axis", "asinh", "-", "-", "real", 8),
   Rel("acosh_axis", "axis", "acosh", "-", "-", "real_gt1", 2),
   Rel("atanh_axis", "axis", "atanh", "-", "-", "real_lt1", 4),
-  Rel("tan_def", "quot", "tan", "sin", "cos", "all", 4),
+  Rel("tan_def", "quot", "tan", "sin", "cos", "all", 8),
   Rel("sec_def", "recip", "sec", "cos", "-", "all", 4),
   Rel("csc_def", "recip", "csc", "sin", "-", "all", 4),
   Rel("cot_def", "recip", "cot", "tan", "-", "all", 4),
+  Rel("cot_quot", "quot", "cot", "cos", "sin", "all", 8),
   Rel("tanh_def", "quot", "tanh", "sinh", "cosh", "all", 4),
   Rel("sech_def", "recip", "sech", "cosh", "-", "all", 4),
   Rel("csch_def", "recip", "csch", "sinh", "-", "all", 4),
   Rel("coth_def", "recip", "coth", "tanh", "-", "all", 4),
+  Rel("coth_quot", "quot", "coth", "cosh", "sinh", "all", 8),
   Rel("ln_rinv", "rinv", "ln", "exp", "-", "all", 8),
   Rel("asin_rinv", "rinv", "asin", "sin", "-", "all", 16),
   Rel("acos_rinv", "rinv", "acos", "cos", "-", "all", 16),
@@ -84,10 +86,10 @@ Rels == <<
   Rel("acot_rinv", "rinv", "acot", "cot", "-", "all", 32),
   Rel("asinh_rinv", "rinv", "asinh", "sinh", "-", "all", 16),
   Rel("acosh_rinv", "rinv", "acosh", "cosh", "-", "all", 8),
-  Rel("atanh_rinv", "rinv", "atanh", "tanh", "-", "all", 32),
-  Rel("asech_rinv", "rinv", "asech", "sech", "-", "all", 64),
+  Rel("atanh_rinv", "rinv", "atanh", "tanh", "-", "all", 64),
+  Rel("asech_rinv", "rinv", "asech", "sech", "-", "all", 128),
   Rel("acsch_rinv", "rinv", "acsch", "csch", "-", "all", 64),
-  Rel("acoth_rinv", "rinv", "acoth", "coth", "-", "all", 16),
+  Rel("acoth_rinv", "rinv", "acoth", "coth", "-", "all", 32),
   Rel("sqrt_sq", "sqrt_sq", "sqrt", "-", "-", "all", 8),
   Rel("pow_def", "pow_def", "pow", "exp", "ln", "all", 64),
   Rel("powf_def", "powf_def", "powf", "exp", "ln", "all", 16),
@@ -95,7 +97,7 @@ Rels == <<
   Rel("polar_def", "polar_def", "polar", "-", "-", "all", 2),
   Rel("polar_rt", "polar_rt", "arg", "polar", "abs", "all", 4),
   Rel("sincos_pyth", "pyth_plus", "sin", "sin", "cos", "all", 16),
-  Rel("coshsinh_pyth", "pyth_minus", "cosh", "cosh", "sinh", "all", 8),
+  Rel("coshsinh_pyth", "pyth_minus", "cosh", "cosh", "sinh", "all", 16),
   Rel("abs_def", "abs_def", "abs", "abs_sqr", "-", "all", 2),
   Rel("abs_sqr_def", "abs_sqr_def", "abs_sqr", "-", "-", "all", 2),
   Rel("conj_def", "conj_def", "conj", "-", "-", "all", 1),
@@ -159,25 +161,62 @@ SectorSeq == [k \in 1..56 |-> Reg("sector", (k - 1) \div 7, (k - 1) % 7, 0, "non
 SideSeq == [k \in 1..56 |-> Reg("side", 2 * ((k - 1) \div 14), (k - 1) % 7, IF ((k - 1) \div 7) % 2 = 0 THEN 1 ELSE -1, "none")]
 PointSeq == <<"1", "-1", "i", "-i">>
 NearSeq == [k \in 1..32 |-> Reg("near", (k - 1) % 8, 3, 0, PointSeq[((k - 1) \div 8) + 1])]
-Regs == SectorSeq \o SideSeq \o NearSeq
+(* pole  : neighbourhoods of the poles / zeros of the quotient functions: centre side * pi/2 on the real axis    *)
+(*         (c = "pole_re": tan, sec odd side; cot, csc even side) or on the imaginary axis (c = "pole_im": the    *)
+(*         hyperbolic analogues), |centre| <= 10, i.e. side in +-1..+-6; distance 10^-(3+m), m in 0..3, in        *)
+(*         direction dir * pi/4 (along the axis on both sides, perpendicular to it, and diagonally off-axis).     *)
+(* exact : special exact arguments.  c = "negzero": the axis ray dir at modulus class m with the OTHER part       *)
+(*         -0.0 (the +0.0 twins are the sector regions; m = 3 gives +-1, +-i); c = "zero": the point 0 + 0i.      *)
+PoleSides == <<-6, -5, -4, -3, -2, -1, 1, 2, 3, 4, 5, 6>>
+PoleDists == 0..3
+PoleSeq == [k \in 1..768 |-> Reg("pole", (k - 1) % 8, ((k - 1) \div 8) % 4, PoleSides[(((k - 1) \div 32) % 12) + 1],
+                                 IF (k - 1) \div 384 = 0 THEN "pole_re" ELSE "pole_im")]
+NegZeroSeq == [k \in 1..28 |-> Reg("exact", 2 * ((k - 1) \div 7), (k - 1) % 7, -1, "negzero")]
+ExactSeq == NegZeroSeq \o <<Reg("exact", 0, 0, 0, "zero")>>
+Regs == SectorSeq \o SideSeq \o NearSeq \o PoleSeq \o ExactSeq
 NReg == Len(Regs)
 RegSet == {Regs[i] : i \in 1..NReg}
+IsPoleReg(g) == g.kind = "pole"
+IsZeroReg(g) == g.kind = "exact" /\ g.c = "zero"
+IsNegZero(g) == g.kind = "exact" /\ g.c = "negzero"
+AxisRay(g) == g.kind = "sector" \/ IsNegZero(g)          \* a ray region (axis or quadrant); on an axis when dir is even
 
 \* the lattice point that is exactly one of +-1, +-i
-ExactPoint(g) == IF g.kind = "sector" /\ g.m = 3 /\ g.dir \in AxisDirs
+ExactPoint(g) == IF AxisRay(g) /\ g.m = 3 /\ g.dir \in AxisDirs
                  THEN (CASE g.dir = 0 -> "1" [] g.dir = 2 -> "i" [] g.dir = 4 -> "-1" [] g.dir = 6 -> "-i") ELSE "none"
 \* regions lying exactly on the real axis, and the sign / size of x there
-OnReal(g) == (g.kind = "sector" /\ g.dir \in {0, 4}) \/ (g.kind = "near" /\ g.c \in {"1", "-1"} /\ g.dir \in {0, 4})
-XPos(g) == (g.kind = "sector" /\ g.dir = 0) \/ (g.kind = "near" /\ g.c = "1")
-XAbsLt1(g) == (g.kind = "sector" /\ g.m \in {0, 1, 2}) \/ (g.kind = "near" /\ ((g.c = "1" /\ g.dir = 4) \/ (g.c = "-1" /\ g.dir = 0)))
-XGt1(g) == (g.kind = "sector" /\ g.dir = 0 /\ g.m \in {4, 5, 6}) \/ (g.kind = "near" /\ g.c = "1" /\ g.dir = 0)
+OnReal(g) == \/ (AxisRay(g) /\ g.dir \in {0, 4}) \/ (g.kind = "near" /\ g.c \in {"1", "-1"} /\ g.dir \in {0, 4})
+             \/ IsZeroReg(g) \/ (IsPoleReg(g) /\ g.c = "pole_re" /\ g.dir \in {0, 4})
+XPos(g) == (AxisRay(g) /\ g.dir = 0) \/ (g.kind = "near" /\ g.c = "1")
+XAbsLt1(g) == \/ (AxisRay(g) /\ g.m \in {0, 1, 2}) \/ IsZeroReg(g)
+              \/ (g.kind = "near" /\ ((g.c = "1" /\ g.dir = 4) \/ (g.c = "-1" /\ g.dir = 0)))
+XGt1(g) == (AxisRay(g) /\ g.dir = 0 /\ g.m \in {4, 5, 6}) \/ (g.kind = "near" /\ g.c = "1" /\ g.dir = 0)
 InDom(dom, g) == CASE dom = "all" -> TRUE
                    [] dom = "real" -> OnReal(g)
                    [] dom = "realpos" -> OnReal(g) /\ XPos(g)
                    [] dom = "real_lt1" -> OnReal(g) /\ XAbsLt1(g)
                    [] dom = "real_gt1" -> OnReal(g) /\ XGt1(g)
+\* next to the poles only the quotient / reciprocal definitions of the family that has its poles and zeros on that
+\* axis are obligations (every one of them: a pole of tan is a zero of cot), and on the real axis the reductions
+\* of tan, sin, cos to the real functions
+Trig == {"tan", "sec", "csc", "cot"}
+Hyp == {"tanh", "sech", "csch", "coth"}
+AtPole(r, g) == \/ (r.kind \in {"quot", "recip"} /\ ((g.c = "pole_re" /\ r.f \in Trig) \/ (g.c = "pole_im" /\ r.f \in Hyp)))
+                \/ (r.kind = "axis" /\ r.f \in {"tan", "sin", "cos"} /\ OnReal(g))
+\* at the point 0 (outside 1e-3 <= |z|, but inside the non-overflowing domain) the relations all of whose members are finite there
+ZeroRels == {"exp_series", "sin_series", "cos_series", "sinh_series", "cosh_series", "exp_axis", "sin_axis", "cos_axis", "tan_axis",
+             "sinh_axis", "cosh_axis", "tanh_axis", "asin_axis", "acos_axis", "atan_axis", "asinh_axis", "atanh_axis",
+             "tan_def", "sec_def", "tanh_def", "sech_def", "asin_rinv", "acos_rinv", "atan_rinv", "asinh_rinv", "atanh_rinv",
+             "sqrt_sq", "polar_def", "polar_rt", "sincos_pyth", "coshsinh_pyth", "abs_def", "abs_sqr_def", "conj_def", "new_def",
+             "zero_def", "one_def"}
 \* the obligation matrix
-Applies(r, g) == InDom(r.dom, g) /\ ExactPoint(g) \notin Sing(r.f)
+Applies(r, g) == IF IsPoleReg(g) THEN AtPole(r, g)
+                 ELSE IF IsZeroReg(g) THEN r.id \in ZeroRels
+                 ELSE InDom(r.dom, g) /\ ExactPoint(g) \notin Sing(r.f)
+\* on an argument with a -0.0 part the value may be either limit of a cut: open ends of a range are closed there
+RangeAt(f, g) == LET q == RangeOf(f) IN IF IsNegZero(g) THEN [q EXCEPT !.loClosed = TRUE, !.hiClosed = TRUE] ELSE q
+\* evaluations demanded per obligation (single exact points have one)
+MinPointsAt(g) == IF IsZeroReg(g) THEN 1 ELSE 2
 
 \* segment of an axis a region of kind sector (axis direction) / side lies on
 SegOf(g) == LET neg == g.dir \in {4, 6}
@@ -218,16 +257,14 @@ Oblig(pos) ==
   IF pos <= NMatrix
     THEN LET p == Matrix[pos]
              r == Rels[p[1]]
-         IN [kind |-> "rel", pos |-> pos, ri |-> p[1], gi |-> p[2], rel |-> r, reg |-> Regs[p[2]], range |-> RangeOf(r.f), cond |-> r.cond,
+         IN [kind |-> "rel", pos |-> pos, ri |-> p[1], gi |-> p[2], rel |-> r, reg |-> Regs[p[2]], range |-> RangeAt(r.f, Regs[p[2]]), cond |-> r.cond, minpts |-> MinPointsAt(Regs[p[2]]),
              z |-> CZero, k |-> 0, expect |-> CZero]
   ELSE IF pos <= NMatrix + Len(SqrtCases)
     THEN LET w == SqrtCases[pos - NMatrix]
-         IN [kind |-> "sqrt_exact", pos |-> pos, ri |-> 0, gi |-> 0, rel |-> Rels[1], reg |-> Regs[1], range |-> RangeOf("sqrt"), cond |-> SqrtCond,
+         IN [kind |-> "sqrt_exact", pos |-> pos, ri |-> 0, gi |-> 0, rel |-> Rels[1], reg |-> Regs[1], range |-> RangeOf("sqrt"), cond |-> SqrtCond, minpts |-> 1,
              z |-> CMul(w, w), k |-> 0, expect |-> PrincipalOfSquare(w)]
   ELSE LET c == PowCases[pos - NMatrix - Len(SqrtCases)]
-       IN [kind |-> "powk", pos |-> pos, ri |-> 0, gi |-> 0, rel |-> Rels[1], reg |-> Regs[1], range |-> NoRange, cond |-> PowCond,
+       IN [kind |-> "powk", pos |-> pos, ri |-> 0, gi |-> 0, rel |-> Rels[1], reg |-> Regs[1], range |-> NoRange, cond |-> PowCond, minpts |-> 1,
            z |-> c.z, k |-> c.k, expect |-> CPow(c.z, c.k)]
 
-\* points evaluated per obligation: at least this many must be reported
-MinPoints == 2
 =============================================================================
